@@ -421,6 +421,9 @@ var AdvOn bool
 // (the inner call is mapped over the keys of each element).
 var NestedAM bool
 
+// NestedStatic makes templateNestedProg map ROW over a literal array of arrays.
+var NestedStatic bool
+
 func init() {
 	Profiles["C11"] = c11Case
 	Profiles["C01"] = func(c *Ctx) { dataflowCase(c, "C01") }
@@ -578,6 +581,27 @@ func templateNestedProg(plan *Tape) *Prog {
 		top.Calls = append(top.Calls, &CallDef{Callee: "ROW", Id: "ROW_K", Mapped: true, Binds: []Bind{{"xs", ref("MAKE", "keyed"), true}, {"k", lit(2), false}}})
 		top.Outs = append(top.Outs, Field{"bykey", keyed})
 		top.Ret = append(top.Ret, Bind{"bykey", ref("ROW_K", "ys"), false})
+	}
+	if NestedStatic || plan.Draw(5) == 0 {
+		// the outer collection is a literal with rows of different lengths (no empty
+		// ones: those are known finding KF-C01-1 territory, and as literals they make
+		// the pipestance fail outright - a fork with an empty name)
+		nrows := 2 + plan.Draw(2)
+		var rowsV []interface{}
+		for i := 0; i < nrows; i++ {
+			n := []int{1, 3, 2}[plan.Draw(3)]
+			row := []interface{}{}
+			for j := 0; j < n; j++ {
+				row = append(row, int64(10*i+j+1))
+			}
+			rowsV = append(rowsV, row)
+		}
+		for _, cl := range top.Calls {
+			if cl.Id == "ROW" {
+				cl.Binds[0].E = &Expr{Kind: ELit, Val: rowsV, T: grid}
+			}
+		}
+		p.StaticRagged = true
 	}
 	var extraPipes []*PipelineDef
 	if NestedAM {
